@@ -1,7 +1,8 @@
 (* C13 -- Save/load round trip is lossless and files obey the documented format.
    Nothing but statements closed by `exact <lemma>` and Print Assumptions. *)
 From Coq Require Import List NArith ZArith Bool Lia.
-From PV Require Import Msgpack.Codec Msgpack.Generic Msgpack.FileFormat Msgpack.CodecProofs Msgpack.GenericProofs
+From PV Require Import Base.U32 Base.Err Shape.ShapeImpl Shape.ShapeSpec Shape.ShapeProofs Msgpack.Codec Msgpack.Generic Msgpack.FileFormat
+  Msgpack.CodecProofs Msgpack.GenericProofs Msgpack.FileProofs Msgpack.LoadAtomic Msgpack.FileRoundtrip
   Msgpack.ConstsMatch Gen.IoConsts.
 Import ListNotations.
 Local Open Scope N_scope.
@@ -51,6 +52,49 @@ Theorem C13_map_first_entry_wins (l : list (bytes * N)) k :
 Proof. exact (dedup_first_lookup bytes_eqb l k bytes_eqb_spec). Qed.
 Print Assumptions C13_map_first_entry_wins.
 
+(* ---- files ----
+   A Parameter file written with with_stats = ws, loaded (same ws) into ANY Parameter object p0
+   (fresh or not), leaves exactly: valid, the saved shape, every 32-bit word of the value, a zero
+   gradient, and the saved statistics with their names iff ws (none otherwise); the rest of the
+   stream is untouched.  [wf_param]: a valid Parameter (public Shape of batch 1, as many 32-bit
+   words as elements, fewer than 2^30 elements, distinct statistics names shorter than 2^32). *)
+Theorem C13_file_roundtrip_parameter ws p p0 rest : wf_param p ->
+  load_parameter ws (enc_param_file ws p ++ rest, p0) =
+    (Some tt, (rest, mkP true (p_shape p) (p_value p) (zeros (p_shape p)) (if ws then p_stats p else []))).
+Proof. exact (file_roundtrip_parameter ws p p0 rest). Qed.
+Print Assumptions C13_file_roundtrip_parameter.
+
+(* A Model file: [es] = get_all_parameters() of the saved model (full hierarchical paths, pairwise
+   distinct), loaded into a model of the same structure [st0] whatever its parameters hold: every
+   path ends up with the saved record as above. *)
+Theorem C13_file_roundtrip_model ws (es st0 : entries) rest :
+  Forall wf_entry es -> NoDup (map fst es) -> N.of_nat (length es) < 2 ^ 32 -> map fst st0 = map fst es ->
+  load_model ws (enc_model_file ws es ++ rest, st0) =
+    (Some tt, (rest, map (fun kp => (fst kp, loaded ws (snd kp))) es)).
+Proof. exact (file_roundtrip_model ws es st0 rest). Qed.
+Print Assumptions C13_file_roundtrip_model.
+
+(* An Optimizer file (get_configs of o) loaded into an optimizer of the same algorithm gives back
+   every setting: epoch, lr_scale, l2_strength, clip_threshold and the algorithm's own ones, bit
+   for bit.  [wf_optim]: algorithm 0..5 with its number of settings, 32-bit words, and the three
+   base settings not negative (no Optimizer can hold a negative one: the setters reject it). *)
+Theorem C13_file_roundtrip_optimizer o o0 rest : wf_optim o -> o_kind o0 = o_kind o -> length (o_hp o0) = length (o_hp o) ->
+  load_optimizer (enc_opt_file (uint_configs o) (float_configs o) ++ rest, o0) = (Some tt, (rest, o)).
+Proof. exact (file_roundtrip_optimizer o o0 rest). Qed.
+Print Assumptions C13_file_roundtrip_optimizer.
+
+(* Tensor payload: the bin object of a tensor is the concatenation of its words in to_vector()
+   order, each little-endian: byte j of element i is at offset 4 i + j and holds bits 8j..8j+7;
+   the order is column-major with the batch as last dimension: the flat index of (c :: cs) in
+   dimensions (d :: ds) is c + d * (flat index of cs in ds), and stays below the element count. *)
+Theorem C13_payload_little_endian_column_major :
+  (forall t, enc_tensor t = enc_shape (tshape t) ++ w_bin (payload (twords t))) /\
+  (forall ws i j, (j < 4)%nat -> nth (4 * i + j) (payload ws) 0 = (nth i ws 0 / 256 ^ N.of_nat j) mod 256) /\
+  (forall d ds c cs, flat_index (d :: ds) (c :: cs) = c + d * flat_index ds cs) /\
+  (forall ds cs, length cs = length ds -> Forall2 (fun c d => c < d) cs ds -> flat_index ds cs < prodN ds).
+Proof. exact (conj (fun t => eq_refl) (conj nth_payload (conj flat_index_cons flat_index_lt))). Qed.
+Print Assumptions C13_payload_little_endian_column_major.
+
 (* (T) The constants of the model (version 0.1, data-type tags, type byte and size of every
    scalar overload, (limit, type byte) of every length class of str/bin/ext/array/map, the type
    bytes and masks the Reader tests) are the ones read out of file_format.h, msgpack/writer.h and
@@ -76,4 +120,34 @@ Proof.
   apply Forall_cons; [cbn [fst snd]; split; [vm_compute; reflexivity|split; [vm_compute; reflexivity|]]|].
   - apply Forall_cons; [lia|]. apply Forall_cons; [lia|]. apply Forall_nil.
   - apply Forall_cons; [|apply Forall_nil]. cbn [fst snd]. split; [vm_compute; reflexivity|]. split; [vm_compute; reflexivity|apply Forall_nil].
+Qed.
+
+Example C13_nonvacuous_file :
+  let sh := mkS [2; 3] 1 6 in
+  let st := mkS [] 2 1 in
+  let p := mkP true sh (mkT sh [0x7fc00001; 0x80000000; 0x7f800000; 1; 0xff812345; 0x3f800000]) (mkT sh [9; 9; 9; 9; 9; 9])
+               [([109], mkT st [0xffc12345; 0])] in
+  wf_param p /\ length (enc_param_file true p) = 80%nat /\
+  fst (load_parameter true (enc_param_file true p, mkP false scalar_shape (mkT scalar_shape []) (mkT scalar_shape []) [])) = Some tt.
+Proof.
+  split; [|split; vm_compute; reflexivity].
+  assert (W1 : wf (mkS [2; 3] 1 6)).
+  { destruct (ShapeProofs.mk_shape_some [2; 3] 1 (mkS [2; 3] 1 6)) as [_ [_ W]]; [|vm_compute; reflexivity|vm_compute; reflexivity|exact W].
+    apply Forall_cons; [vm_compute; reflexivity|]. apply Forall_cons; [vm_compute; reflexivity|]. apply Forall_nil. }
+  assert (W2 : wf (mkS [] 2 1)).
+  { destruct (ShapeProofs.mk_shape_some [] 2 (mkS [] 2 1)) as [_ [_ W]]; [apply Forall_nil|vm_compute; reflexivity|vm_compute; reflexivity|exact W]. }
+  assert (T1 : wf_tensor (mkT (mkS [2; 3] 1 6) [0x7fc00001; 0x80000000; 0x7f800000; 1; 0xff812345; 0x3f800000])).
+  { constructor; cbn [tshape twords]; [exact W1|vm_compute; reflexivity| |vm_compute; reflexivity].
+    repeat (apply Forall_cons; [vm_compute; reflexivity|]). apply Forall_nil. }
+  assert (T2 : wf_tensor (mkT (mkS [] 2 1) [0xffc12345; 0])).
+  { constructor; cbn [tshape twords]; [exact W2|vm_compute; reflexivity| |vm_compute; reflexivity].
+    repeat (apply Forall_cons; [vm_compute; reflexivity|]). apply Forall_nil. }
+  apply mkWfP; cbn [p_valid p_value p_shape p_stats].
+  - reflexivity.
+  - exact T1.
+  - reflexivity.
+  - reflexivity.
+  - vm_compute; reflexivity.
+  - apply Forall_cons; [|apply Forall_nil]. split; [vm_compute; reflexivity|exact T2].
+  - cbn [map fst]. apply NoDup_cons; [intros []|apply NoDup_nil].
 Qed.
